@@ -7,6 +7,7 @@
 
 mod common;
 mod g_coltypes;
+mod g_derive;
 mod g_escape;
 mod g_hashable;
 mod g_quote;
@@ -34,6 +35,7 @@ fn main() {
             "take" => g_take::generate(repo),
             "types" => g_types::generate(repo),
             "coltypes" => g_coltypes::generate(repo),
+            "derive" => g_derive::generate(repo),
             _ => Err(format!("unknown group {g}")),
         };
         match r {
